@@ -109,12 +109,13 @@ def parse_tla(s):
 def extract_printed(out, tag):
     """All PrintT'ed tuples whose first element is the string `tag` (bracket matching across lines)."""
     res = []
-    key = '<<"%s"' % tag
+    pat = re.compile(r'<<\s*"%s"' % re.escape(tag))
     i = 0
     while True:
-        i = out.find(key, i)
-        if i < 0:
+        m = pat.search(out, i)
+        if not m:
             break
+        i = m.start()
         depth, j, instr = 0, i, False
         while j < len(out):
             if instr:
